@@ -688,15 +688,20 @@ def split_desc(rng, d, depth=0, prefix="", first_dirs=None):
     cut = rng.randint(1, len(decls) - 1)
     mod_decls = decls[:cut]
     rest = decls[cut:]
-    parts = [rng.choice(["mods", "lib", "common"]) for _ in range(rng.randint(0, 2))] + [rng.choice(["types", "base", "defs"]) + str(depth)]
+    # the same few file names at every depth: a nested module `mod types;` next to its importer may have a namesake
+    # next to the root file (paths are relative to the importing file)
+    parts = [rng.choice(["mods", "lib", "common"]) for _ in range(rng.randint(0, 2))] + \
+            [rng.choice(["types", "base", "defs"]) + (str(depth) if rng.random() < 0.5 else "")]
     if first_dirs:
         parts = list(first_dirs) + parts
+    rel = prefix + "/".join(parts) + ".fcp"
     sub = Desc()
     sub.decls = mod_decls
     inner_decls, inner_files = split_desc(rng, sub, depth + 1, prefix + "/".join(parts[:-1]) + ("/" if parts[:-1] else ""))
+    if rel in inner_files:  # a module must not be its own descendant: keep this level flat
+        return decls, files
     sub2 = Desc()
     sub2.decls = inner_decls
-    rel = prefix + "/".join(parts) + ".fcp"
     files[rel] = sub2
     files.update(inner_files)
     return [{"k": "mod", "path": parts}] + rest, files
